@@ -757,6 +757,25 @@ func run1(in Sx) Sx {
 			p.SetFlag(fatchoy.PacketFlag(^h.flg))
 		})
 		later := res(func() Sx { return List(hdrOfPkt(q).sx(), bodySx(q.Body()), Int(int64(q.Errno()))) })
+		// the recycled object serves the next request: its reply carries the NEW fields
+		recycledOK := false
+		Catch(func() {
+			e2 := &recorder{}
+			p.SetEndpoint(e2)
+			p.ReplyWith(h.cmd+2, "again")
+			if len(e2.sent) != 1 || len(e1.sent) != int(first[1].Int64()) {
+				return
+			}
+			r2 := e2.sent[0]
+			want := hdr{h.cmd + 2, h.seq + 1, h.typ + 1, ^h.flg, h.node + 1, p.Refers()}
+			got := hdrOfPkt(r2)
+			if got.sx().String() == want.sx().String() && bodySx(r2.Body()).String() == List(Int(3), Str("again")).String() && len(got.refers) == len(h.refers)+1 {
+				recycledOK = true
+			}
+		})
+		if !recycledOK {
+			return List(Int(0))
+		}
 		return ListOf(append(first, later))
 	case 6:
 		p := packet.New(7, 1, fatchoy.PacketFlag(in.At(1).Int64()), goValue(in.At(2)))
@@ -1329,6 +1348,72 @@ func gen(a Args, out *Out) {
 		b1, _ := Catch(func() { p.BodyToBytes() })
 		out.Note("pinned: a StringValue with invalid UTF-8 as body: BodyToBytes panics=%v BodyToString=%q", b1, p.BodyToString())
 	})
+	// typed nils and the shape of slice arguments
+	catchViol("C07/go/typed-nil", "a nil []byte / nil proto message as body has no forms or does not cross", List(Int(0), bytesGov(nil)), func() bool {
+		for cd := 1; cd <= 2; cd++ {
+			for _, v := range []interface{}{[]byte(nil), (*wrapperspb.StringValue)(nil), proto.Message(nil), ""} {
+				p := packet.New(5, 6, 0, v)
+				if len(p.BodyToBytes()) != 0 {
+					return false
+				}
+				p.BodyToString()
+				enc := codec.NewV2Encoder(0)
+				if cd == 1 {
+					enc = codec.NewV1Encoder(0)
+				}
+				var buf bytes.Buffer
+				q := packet.Make()
+				if _, err := enc.WritePacket(&buf, cipher.NewAESCFB(aesKey, aesIV), p); err != nil {
+					return false
+				}
+				if err := enc.ReadPacket(&buf, cipher.NewAESCFB(aesKey, aesIV), q); err != nil || q.Body() != nil || q.Command() != 5 || q.Seq() != 6 || q.Errno() != 0 {
+					return false
+				}
+			}
+		}
+		return true
+	})
+	for i := 0; i < 60*scale; i++ {
+		size, off, spare := rng.PickInt(0, 1, 5, 16, 17, 100, 5000), rng.Intn(20), rng.PickInt(0, 1, 15, 16, 4096)
+		thr := rng.PickInt(4, 4096)
+		withCipher := rng.Bool()
+		cd := 1 + rng.Intn(2)
+		seed := rng.Next()
+		in := List(Int(7), Int(1), Int(int64(size)), Uint(seed), Int(int64(cd)), Int(int64(thr)), Bool(withCipher))
+		catchViol("C07/go/slice-neighbours", "a []byte body that is a window of a larger array: bytes outside the window changed, or (without a cipher) the window itself", in, func() bool {
+			big := lcgBytes(seed^0x5555, off+size+spare)
+			orig := append([]byte{}, big...)
+			body := big[off : off+size : off+size+spare]
+			p := packet.New(9, 9, 0, body)
+			enc := codec.NewV2Encoder(thr)
+			if cd == 1 {
+				enc = codec.NewV1Encoder(thr)
+			}
+			var ec, dc cipher.BlockCryptor
+			if withCipher {
+				ec, dc = cipher.NewAESCFB(aesKey, aesIV), cipher.NewAESCFB(aesKey, aesIV)
+			}
+			var buf bytes.Buffer
+			q := packet.Make()
+			if _, err := enc.WritePacket(&buf, ec, p); err != nil {
+				return false
+			}
+			if err := enc.ReadPacket(&buf, dc, q); err != nil {
+				return false
+			}
+			if size > 0 {
+				if v, ok := q.Body().([]byte); !ok || !bytes.Equal(v, orig[off:off+size]) {
+					return false
+				}
+			}
+			if !bytes.Equal(big[:off], orig[:off]) || !bytes.Equal(big[off+size:], orig[off+size:]) {
+				return false
+			}
+			// in-place encryption of the caller's slice is the known hazard; compression and a
+			// plain send must leave the window alone
+			return withCipher || bytes.Equal(big[off:off+size], orig[off:off+size])
+		})
+	}
 	// scenario 6: the constructor with a body of any supported kind
 	for i := 0; i < 100*scale; i++ {
 		g := genGov(rng, out)
@@ -1433,7 +1518,9 @@ func gen(a Args, out *Out) {
 			w := p.BodyToBytes()
 			x, n := binary.Varint(w)
 			t, err := strconv.ParseInt(p.BodyToString(), 10, 64)
-			return n == len(w) && x == v && err == nil && t == v && p.BodyToInt() == v
+			// asking again gives the same answers
+			again := bytes.Equal(p.BodyToBytes(), w) && p.BodyToString() == strconv.FormatInt(v, 10) && p.BodyToInt() == v
+			return n == len(w) && x == v && err == nil && t == v && p.BodyToInt() == v && again
 		})
 		bits := vr.Next()
 		catchViol("C07/go/float-forms", "float body: uvarint of the bits or the text does not give the value back", List(Int(0), List(Int(4), Uint(bits))), func() bool {
